@@ -109,6 +109,8 @@ class World:
         S["current_hash"] = self._current_hash
         S["write_frame"] = self._write_frame
         S["short_hash"] = self._short_hash
+        S["mtime_secs"] = lambda ex_, st, args, dest_ty, func, where: VInt(ex_.fresh_int("mtime_secs", ty="i64"), "i64")
+        S["meta::mtime_secs"] = S["mtime_secs"]
         self.finals = []
 
     def install_hash_recorder(self):
@@ -633,6 +635,8 @@ def frame_obligations(ctx, R, prover, pid="C12"):
         for body in sorted({max(0, min(n - 4, 1 << 16)), min(declared, 1 << 16), 0}):
             for chunk in (1 << 20, 3):
                 fam.append({"fn": "frame_read", "prefix": pre, "body_len": body, "fill": 0xf6, "chunk": chunk})
+        for slack in (1, 64):
+            fam.append({"fn": "frame_read", "what": "inflated", "slack": slack, "prefix": [], "body_len": 0})
         fam.append({"fn": "frame_roundtrip", "chunk": 1})
         fam.append({"fn": "frame_roundtrip", "chunk": 5})
         # end of input inside the 4-byte prefix / inside the body: must return (None or an error), not spin
@@ -646,6 +650,9 @@ def frame_obligations(ctx, R, prover, pid="C12"):
                     bad[p] = "read_frame does not return after its input is closed (%s)" % r["hang"]
                 elif "panic" in r or "crash" in r:
                     bad[p] = "panic: %s" % str(r)[:160]
+                elif case.get("what") == "inflated":
+                    if str(r.get("result", "")).startswith("Some"):
+                        bad[p] = "a frame whose prefix announces %d more bytes than arrive before EOF was DECODED AND RETURNED: %s" % (case["slack"], r["result"][:80])
                 elif case["fn"] == "frame_roundtrip":
                     if not r.get("equal"):
                         bad[p] = "frames written by write_frame are not read back: %s" % r.get("mismatches")
